@@ -27,8 +27,10 @@ ASSUMPTIONS = [
     "calls them directly with the reference-mapped action (wrappers are the code under test, base envs are not)",
     "float64 NumPy composition of clip / affine / table maps is the declared semantics; float32 evaluation error is "
     "propagated as an explicit bound (8 eps per affine op) and base-env outputs get 2e-5*(1+|ref|) + 10*tol_action",
-    "rescale: bounded boxes with (max-min) >= 0.3 only; 'exactly onto' is read as within 8 eps32 * "
-    "(|low|+|high|+(|min|+|max|)*(high-low)/(max-min)) (float32 rounding of the affine formula)",
+    "rescale: bounded boxes with high > low and max > min only; 'exactly onto' is read as within 8 eps32 * "
+    "(|low|+|high|+(|min|+|max|)*(high-low)/(max-min)) for actions and 8 eps32 * (|min|+|max|+(|low|+|high|)*"
+    "(max-min)/(high-low)) for observations (float32 rounding of the affine formula); how many mapped bounds are "
+    "bit-exact / fall outside the inner box is recorded as a note, not judged",
     "FiniteMDP-Box cases whose mapped action is within 1e-3 of an interior bin edge are skipped when the map is inexact",
     "ProbeEnv terminal cases with |margin| < 1e-4 are skipped (threshold flip under jit re-association)",
     "adapters: twin = the adapted env's own functional API / an identically seeded Gymnasium / Gymnax twin; "
@@ -201,7 +203,7 @@ def _mk_layer(kind, rng, act, obs):
             L.tag = f"TransformAction({var})"
         elif act[0] == "discrete":
             n = act[1]
-            P = rng.permutation(n)
+            P = np.roll(np.arange(n), 1 + int(rng.integers(max(1, n - 1))))  # never the identity
             Pj = jnp.asarray(P)
             L.f = lambda a: int(P[int(a)])
             L.m = lambda mask: np.asarray(mask)[P]
@@ -718,7 +720,7 @@ def u_single(ctx):
     k = 0
     for kind in KINDS:
         for variant in ALL_VARIANTS:
-            for rep in range(reps):
+            for rep in range(reps + 2 * (kind == "transform_action" and variant == "fmdp-masked")):
                 base = _base(ctx.rng, variant)
                 L = _mk_layer(kind, ctx.rng, _sp(base.action_space), _sp(base.observation_space))
                 if L is None:
@@ -794,7 +796,7 @@ def _classic(ctx, envs, per_env):
 def u_classic_box(ctx):
     from lerax.env.classic_control import ContinuousMountainCar, Pendulum
 
-    _classic(ctx, [("Pendulum", Pendulum), ("ContinuousMountainCar", ContinuousMountainCar)], ctx.n(2, 8))
+    _classic(ctx, [("Pendulum", Pendulum), ("ContinuousMountainCar", ContinuousMountainCar)], ctx.n(3, 8))
 
 
 def u_classic_disc(ctx):
@@ -803,7 +805,171 @@ def u_classic_disc(ctx):
     envs = [("CartPole", CartPole), ("MountainCar", MountainCar)]
     if not ctx.quick:
         envs.append(("Acrobot", Acrobot))
-    _classic(ctx, envs, ctx.n(2, 8))
+    _classic(ctx, envs, ctx.n(3, 8))
+
+
+# ------------------------------------------------------------------ rescale
+def _rand_box(rng, shape):
+    scale = 10.0 ** rng.uniform(-2, 3, size=shape)
+    center = rng.normal(0, 1, size=shape) * scale * (rng.random(shape) < 0.7)
+    low = (center - scale * rng.uniform(0.1, 1, size=shape)).astype(np.float32)
+    high = (center + scale * rng.uniform(0.1, 1, size=shape)).astype(np.float32)
+    return np.asarray(low), np.asarray(high)
+
+
+def _rand_minmax(rng, shape, i):
+    if i % 5 == 0:
+        return None, None  # documented defaults -1, 1
+    s2 = 1.0 if i % 2 else 10.0 ** rng.uniform(-1, 2)
+    sh = shape if (shape and i % 3 == 0) else ()
+    mn = np.asarray(rng.uniform(-3, 1, size=sh) * s2, np.float32)
+    mx = (mn + np.asarray(rng.uniform(0.3, 4, size=sh) * s2, np.float32)).astype(np.float32)
+    return mn, mx
+
+
+def _points(rng, shape, k):
+    """lambda in [0,1]^shape: all-zero, all-one, mixed corners, interior."""
+    pts = [np.zeros(shape), np.ones(shape)]
+    for _ in range(k):
+        pts.append((rng.random(shape) < 0.5).astype(np.float64))
+        pts.append(rng.uniform(0, 1, size=shape))
+    return pts
+
+
+def u_rescale(ctx):
+    import equinox as eqx
+    import jax.numpy as jnp
+    from jax import random as jr
+    from lerax import wrapper as lw
+    from lerax.space import Box
+    from lerax.wrapper.utils import rescale_box
+    from vlib.c13_helpers import ProbeEnv
+    from vlib.common import digest
+
+    n = ctx.n(60, 500)
+    stats = {"bounds": 0, "bit_exact": 0, "outside_inner_box": 0, "max_err_over_tol": 0.0}
+
+    def judge(kind, key_pre, got, want, tol, lam, desc, scale_desc):
+        got = np.asarray(got, np.float64).reshape(np.shape(want))
+        corner = bool(np.all((lam == 0) | (lam == 1)))
+        ctx.monitor(f"rescale_{kind}_{'bound' if corner else 'interior'}_points")
+        err = np.abs(got - want)
+        if corner:
+            stats["bounds"] += got.size
+            stats["bit_exact"] += int(np.sum(got.astype(np.float32) == want.astype(np.float32)))
+        with np.errstate(divide="ignore", invalid="ignore"):
+            stats["max_err_over_tol"] = max(stats["max_err_over_tol"], float(np.max(err / tol)))
+        ctx.case(dict(desc, kind=kind, lam=digest(lam)), nontrivial=True, cls=f"rescale/{kind}/{'bound' if corner else 'interior'}")
+        if not np.all(err <= tol):
+            ctx.violation(f"{key_pre}-{'bounds-not-onto-bounds' if corner else 'not-affine'}",
+                          dict(scale_desc, got=got, want=want, tol=tol, lam=lam))
+
+    for i in range(n):
+        shape = [(), (1,), (3,), (2, 2)][i % 4]
+        low, high = _rand_box(ctx.rng, shape)
+        mn, mx = _rand_minmax(ctx.rng, shape, i)
+        mn_e = np.float32(-1.0) if mn is None else mn
+        mx_e = np.float32(1.0) if mx is None else mx
+        mnb = np.broadcast_to(mn_e, shape).astype(np.float64)
+        mxb = np.broadcast_to(mx_e, shape).astype(np.float64)
+        lo, hi = low.astype(np.float64), high.astype(np.float64)
+        ratio = (hi - lo) / (mxb - mnb)
+        tol_back = 8 * EPS * (np.abs(lo) + np.abs(hi) + (np.abs(mnb) + np.abs(mxb)) * ratio)
+        tol_fwd = 8 * EPS * (np.abs(mnb) + np.abs(mxb) + (np.abs(lo) + np.abs(hi)) / ratio)
+        sd = {"low": low, "high": high, "min": mn_e, "max": mx_e}
+        desc = {"i": i, "shape": list(shape), "h": digest(low, high, mnb)}
+        pts = _points(ctx.rng, shape, 2)
+        # --- A: the helper itself
+        try:
+            res = rescale_box(Box(low, high), jnp.asarray(mn_e), jnp.asarray(mx_e))
+            if not _sp_eq(_sp(res.box), ("box", mnb.astype(np.float32), mxb.astype(np.float32))):
+                ctx.violation("rescale-box-space-mismatch", dict(sd, got=repr(res.box)))
+            for lam in pts:
+                judge("box_forward", "rescale-box-forward", res.forward(jnp.asarray((lo + lam * (hi - lo)).astype(np.float32))),
+                      mnb + ((lo + lam * (hi - lo)).astype(np.float32).astype(np.float64) - lo) / ratio, tol_fwd, lam, desc, sd)
+                x = (mnb + lam * (mxb - mnb)).astype(np.float32)
+                judge("box_backward", "rescale-box-backward", res.backward(jnp.asarray(x)),
+                      lo + (x.astype(np.float64) - mnb) * ratio, tol_back, lam, desc, sd)
+        except Exception as e:
+            ctx.violation("rescale-box-raises", dict(sd, error=f"{type(e).__name__}: {e}"[:300]))
+        # --- B: RescaleAction, action received by the inner transition / info / reward
+        try:
+            base = ProbeEnv(ctx.rng, act_shape=shape, alow=low, ahigh=high)
+            W = lw.RescaleAction(base) if mn is None else lw.RescaleAction(base, jnp.asarray(mn), jnp.asarray(mx))
+            ctx.monitor("constructed_RescaleAction")
+            if not _sp_eq(_sp(W.action_space), ("box", mnb.astype(np.float32), mxb.astype(np.float32))):
+                ctx.violation("rescaleaction-space-mismatch", dict(sd, got=repr(W.action_space)))
+            ws = W.initial(key=ctx.key(10 * i))
+            for j, lam in enumerate(pts):
+                x = (mnb + lam * (mxb - mnb)).astype(np.float32)
+                want = lo + (x.astype(np.float64) - mnb) * ratio
+                k1, k2 = jr.split(ctx.key(10 * i + 1 + j))
+                ns = W.transition(ws, jnp.asarray(x), key=k1)
+                got = np.asarray(ns.unwrapped.a_tr, np.float64).reshape(shape)
+                judge("action_transition", "rescaleaction-transition", got, want, tol_back, lam, desc, sd)
+                judge("action_info", "rescaleaction-transition-info", W.transition_info(ws, jnp.asarray(x), ns)["a"],
+                      want, tol_back, lam, desc, sd)
+                if np.all((lam == 0) | (lam == 1)):
+                    stats["outside_inner_box"] += int(np.sum((got.astype(np.float32) < low) | (got.astype(np.float32) > high)))
+                r = float(W.reward(ws, jnp.asarray(x), ns, key=k2))
+                r_ref = float(base.reward(ws.unwrapped, jnp.asarray(want.astype(np.float32)), ns.unwrapped, key=k2))
+                ctx.monitor("rescale_reward_points")
+                if abs(r - r_ref) > 2e-5 * (1 + abs(r_ref)) + float(np.sum(np.abs(np.asarray(base.u)).reshape(-1) * tol_back.reshape(-1))):
+                    ctx.violation("rescaleaction-reward-uses-other-action", dict(sd, action=x, got=r, want=r_ref))
+        except Exception as e:
+            ctx.violation("rescaleaction-raises", dict(sd, error=f"{type(e).__name__}: {e}"[:300]))
+        # --- C: RescaleObservation on a 6-vector / 2x3 observation box
+        try:
+            oshape, okind = ((6,), "box") if i % 2 else ((2, 3), "box2d")
+            olow, ohigh = _rand_box(ctx.rng, (6,))
+            omn, omx = _rand_minmax(ctx.rng, oshape, i + 1)
+            omn_e = np.float32(-1.0) if omn is None else omn
+            omx_e = np.float32(1.0) if omx is None else omx
+            omnb = np.broadcast_to(omn_e, oshape).astype(np.float64)
+            omxb = np.broadcast_to(omx_e, oshape).astype(np.float64)
+            olo, ohi = olow.reshape(oshape).astype(np.float64), ohigh.reshape(oshape).astype(np.float64)
+            grad = (omxb - omnb) / (ohi - olo)
+            tol_o = 8 * EPS * (np.abs(omnb) + np.abs(omxb) + (np.abs(olo) + np.abs(ohi)) * grad)
+            base = ProbeEnv(ctx.rng, obs_kind=okind, olow=olow, ohigh=ohigh, obs_noise=0.0)
+            W = lw.RescaleObservation(base) if omn is None else lw.RescaleObservation(base, jnp.asarray(omn), jnp.asarray(omx))
+            ctx.monitor("constructed_RescaleObservation")
+            osd = {"low": olow, "high": ohigh, "min": omn_e, "max": omx_e}
+            if not _sp_eq(_sp(W.observation_space), ("box", omnb.astype(np.float32), omxb.astype(np.float32))):
+                ctx.violation("rescaleobservation-space-mismatch", dict(osd, got=repr(W.observation_space)))
+            ws = W.initial(key=ctx.key(10 * i + 7))
+            for lam in _points(ctx.rng, oshape, 2):
+                x = (olo + lam * (ohi - olo)).astype(np.float32)
+                ws2 = eqx.tree_at(lambda s: s.env_state.x, ws, jnp.asarray(x.reshape(6)))
+                got = W.observation(ws2, key=ctx.key(3))
+                want = omnb + (x.astype(np.float64) - olo) * grad
+                judge("observation", "rescaleobservation", got, want, tol_o, lam, {"i": i, "o": digest(olow, ohigh, omnb)}, osd)
+        except Exception as e:
+            ctx.violation("rescaleobservation-raises", {"error": f"{type(e).__name__}: {e}"[:300]})
+    # --- built-in bounded observation boxes with the documented defaults
+    from lerax.env.classic_control import Acrobot, MountainCar, Pendulum
+
+    for mk in (MountainCar, Pendulum, Acrobot):
+        try:
+            base = mk()
+            W = lw.RescaleObservation(base)
+            sp = _sp(base.observation_space)
+            lo, hi = sp[1].astype(np.float64), sp[2].astype(np.float64)
+            for j in range(ctx.n(4, 20)):
+                ws = W.initial(key=ctx.key(900 + j))
+                o = np.asarray(base.observation(ws.unwrapped, key=ctx.key(1)), np.float64)
+                want = -1.0 + (o - lo) * 2.0 / (hi - lo)
+                got = np.asarray(W.observation(ws, key=ctx.key(1)), np.float64)
+                ctx.monitor("rescale_builtin_observation_points")
+                ctx.case({"env": base.name, "j": j, "o": digest(o)}, nontrivial=True, cls=f"rescale/builtin/{base.name}")
+                if not np.all(np.abs(got - want) <= 8 * EPS * (2 + (np.abs(lo) + np.abs(hi)) * 2 / (hi - lo))):
+                    ctx.violation("rescaleobservation-not-affine", {"env": base.name, "obs": o, "got": got, "want": want})
+        except Exception as e:
+            ctx.violation("rescaleobservation-raises", {"env": mk.__name__, "error": f"{type(e).__name__}: {e}"[:300]})
+    ctx.notes["rescale_bound_stats"] = stats
+    for m in ("rescale_box_forward_bound_points", "rescale_box_backward_bound_points", "rescale_action_transition_bound_points",
+              "rescale_action_info_bound_points", "rescale_observation_bound_points", "rescale_action_transition_interior_points",
+              "rescale_observation_interior_points", "rescale_reward_points"):
+        ctx.require(m, 20)
 
 
 def run_unit(name, ctx):
